@@ -296,6 +296,18 @@ def make_point_problem(E, var_kinds, cons_kinds, fmt="coo", tag=""):
                     v = E.real(f"{tag}H{q}_{a}_{b}@{p}")
                     rec["H"][q][a][b] = v
                     rec["H"][q][b][a] = v
+        if boot.MODE == "sym" and getattr(E, "point_consistency", False):
+            # the callbacks are functions: a point that coincides in value with an earlier one (though
+            # written differently) has the earlier one's values (optional: without it the harness only
+            # over-approximates -- more counterexample candidates, never fewer)
+            xs = items(x)
+            for pk, old in points:
+                if len(pk) != len(k):
+                    continue
+                same = core.land(*[core.SB(a == b) for a, b in zip(pk, k)])
+                vals_new = [rec["f"]] + rec["g"] + rec["c"] + [v for row in rec["J"] for v in row] + [rec["H"][q][a][b] for q in range(m + 1) for a in range(n) for b in range(a, n)]
+                vals_old = [old["f"]] + old["g"] + old["c"] + [v for row in old["J"] for v in row] + [old["H"][q][a][b] for q in range(m + 1) for a in range(n) for b in range(a, n)]
+                E.assume(core.implies(same, core.land(*[a == b for a, b in zip(vals_new, vals_old)])))
         points.append((k, rec))
         return rec
 
